@@ -410,7 +410,9 @@ class ModGen:
                 kind = "pair"
             inst = {"name": "i%d" % k, "of": of, "kind": kind, "conns": []}
             if kind == "array":
-                inst["n"] = d.int(1, 4)
+                inst["n"] = d.int(1, 4) if not d.bool(7) else d.int(10, 13)  # (a few arrays long enough for two-digit element names)
+                if inst["n"] >= 10:
+                    self.feats.add("array_of_10_or_more")
                 via = d.weighted([("ctor", 50), ("mult", 25), ("mult_late", 25)])
                 if via != "ctor":
                     inst["via"] = via
